@@ -160,6 +160,35 @@ fn world(spec: &RunSpec) -> World {
     World { dirs, files, fifos }
 }
 
+/// The contract evaluated against the directory as it really was before the
+/// judged invocation (after earlier invocations of a history have run).
+pub fn expect_in(spec: &RunSpec, before: &crate::exec::Tree) -> Expect {
+    let mut dirs = BTreeSet::new();
+    dirs.insert(String::new());
+    let mut files = BTreeMap::new();
+    let mut fifos = BTreeMap::new();
+    for (p, n) in before {
+        match n {
+            Node::Dir => {
+                dirs.insert(p.clone());
+            }
+            Node::File(c) => {
+                files.insert(p.clone(), c.clone());
+            }
+            Node::Special => {
+                if let Some((_, c)) = spec.fifos.iter().find(|(fp, _)| norm(fp) == *p) {
+                    fifos.insert(p.clone(), c.clone());
+                }
+            }
+        }
+    }
+    let w = World { dirs, files, fifos };
+    match &spec.mode {
+        Mode::Convert(c) => expect_convert(spec, c, &w),
+        Mode::Build(b) => expect_build(b, &w),
+    }
+}
+
 pub fn expect(spec: &RunSpec) -> Expect {
     let w = world(spec);
     match &spec.mode {
